@@ -20,7 +20,7 @@ IdxOfNum(n) == [neg |-> n.s = 1 /\ n.m # <<>>, mag |-> n.m]
 CharAt(s, pos) == Str(<<s.v[pos]>>)
 
 \* one path step into a container
-Step(cur, seg) ==
+PathStep(cur, seg) ==
   CASE cur.t = "o" -> IF HasKey(cur, seg) THEN Found(GetKey(cur, seg)) ELSE NotFound
     [] cur.t = "a" -> LET ix == ParseI64(seg)
                       IN IF ix = NoIndex THEN NotFound
@@ -33,7 +33,7 @@ Step(cur, seg) ==
     [] OTHER -> NotFound
 RECURSIVE Walk(_, _, _)
 Walk(cur, segs, i) == IF i > Len(segs) THEN Found(cur)
-                      ELSE LET r == Step(cur, segs[i])
+                      ELSE LET r == PathStep(cur, segs[i])
                            IN IF r.found THEN Walk(r.v, segs, i + 1) ELSE NotFound
 GetStrKey(d, k) ==
   IF k = <<>> THEN Found(d)
